@@ -74,6 +74,7 @@ type inl struct {
 	tq       byte   // title quote: " ' (
 	spaces   bool   // hard break spelled with spaces
 	written  string // label as written in a reference link
+	nlTitle  bool   // a line ending (instead of a space) separates destination and title
 }
 
 type blk struct {
@@ -105,12 +106,13 @@ type Doc struct {
 }
 
 type gen struct {
-	r     *core.Rand
-	p     Profile
-	nodes int
-	defs  []*blk // reference definitions available for use
-	feat  map[string]int
-	eol   string
+	oneLine bool // generating content that must stay on one line (ATX headings)
+	r       *core.Rand
+	p       Profile
+	nodes   int
+	defs    []*blk // reference definitions available for use
+	feat    map[string]int
+	eol     string
 }
 
 var words = []string{"foo", "bar", "baz", "qux", "Lorem", "ipsum", "dolor", "sit", "amet", "x", "y2", "alpha", "beta", "héllo", "naïve", "ß", "日本", "w1", "A", "I", "Z9", "code", "Tag"}
@@ -122,6 +124,11 @@ var entities = [][2]string{{"&amp;", "&"}, {"&lt;", "<"}, {"&gt;", ">"}, {"&quot
 var rawTags = []string{"<b>", "</b>", "<br/>", "<a href=\"x\">", "<i class='c'>", "<!-- c -->", "<?php x ?>", "<!DOCTYPE html>", "<![CDATA[x]]>", "<em data-x=y>", "<span\tid=\"s\">"}
 
 func (g *gen) f(name string) { g.feat[name]++ }
+
+// multiline reports whether an inline construct may span a line ending here.
+func (g *gen) multiline() bool {
+	return !g.p.Canonical && !g.oneLine && !g.no("inline:multiline") && g.r.Intn(3) == 0
+}
 
 func (g *gen) word() *inl { return &inl{k: iWord, s: words[g.r.Intn(len(words))]} }
 
@@ -170,7 +177,7 @@ func (g *gen) inlineSeq(n int, depth int, inLink bool, lineBreaks bool) []*inl {
 	var out []*inl
 	for i := 0; i < n; i++ {
 		if i > 0 {
-			if lineBreaks && g.r.Intn(4) == 0 && !g.no("inline:softbreak") {
+			if lineBreaks && !g.oneLine && g.r.Intn(4) == 0 && !g.no("inline:softbreak") {
 				hb := g.r.Intn(4)
 				if g.no("inline:hardbreak") {
 					hb = 1
@@ -245,7 +252,12 @@ func (g *gen) inlineSeq(n int, depth int, inLink bool, lineBreaks bool) []*inl {
 				out = append(out, g.word())
 				break
 			}
-			out = append(out, &inl{k: iRaw, s: rawTags[g.r.Intn(len(rawTags))]})
+			if g.multiline() {
+				out = append(out, &inl{k: iRaw, s: []string{"<a\nhref=\"x\">", "<!-- multi\nline -->", "<i class='c'\nid=x>", "<?php\necho 1 ?>", "<em\n data-x=y>"}[g.r.Intn(5)]})
+				g.f("inline:multiline-rawtag")
+			} else {
+				out = append(out, &inl{k: iRaw, s: rawTags[g.r.Intn(len(rawTags))]})
+			}
 			g.f("inline:rawtag")
 		default:
 			out = append(out, g.plainTokens(g.r.Range(1, 3))...)
@@ -259,9 +271,16 @@ func (g *gen) inlineSeq(n int, depth int, inLink bool, lineBreaks bool) []*inl {
 func (g *gen) emphContent(depth int, inLink bool) []*inl {
 	out := []*inl{g.word()}
 	if g.r.Intn(3) == 0 {
-		out = append(out, &inl{k: iSpace})
+		sep := func() *inl {
+			if g.multiline() {
+				g.f("inline:multiline-emphasis")
+				return &inl{k: iSoft}
+			}
+			return &inl{k: iSpace}
+		}
+		out = append(out, sep())
 		out = append(out, g.inlineSeq(1, depth, inLink, false)...)
-		out = append(out, &inl{k: iSpace}, g.word())
+		out = append(out, sep(), g.word())
 	}
 	return out
 }
@@ -273,7 +292,12 @@ func (g *gen) codeSpan() *inl {
 	var sb strings.Builder
 	for i := 0; i < n; i++ {
 		if i > 0 {
-			sb.WriteByte(' ')
+			if g.multiline() {
+				sb.WriteByte('\n') // a line ending inside a code span reads as a space
+				g.f("inline:multiline-code")
+			} else {
+				sb.WriteByte(' ')
+			}
 		}
 		sb.WriteString(parts[g.r.Intn(len(parts))])
 	}
@@ -298,13 +322,25 @@ func (g *gen) destTitle(in *inl) {
 		in.hasTitle = true
 		in.tq = "\"'("[g.r.Intn(3)]
 		in.title = []string{"title", "a b", "T &amp; U", "it\\\"s", "x*y", ""}[g.r.Intn(6)]
+		if g.multiline() {
+			in.title = []string{"multi\nline", "three\nline\ntitle", "it\\\"s\nmulti"}[g.r.Intn(3)]
+			g.f("inline:multiline-title")
+		}
+		if g.multiline() {
+			in.nlTitle = true
+			g.f("inline:title-on-next-line")
+		}
 	}
 }
 
 func (g *gen) link(depth int) *inl {
 	g.f("inline:link")
 	l := &inl{k: iLink}
-	l.kids = g.inlineSeq(g.r.Range(1, 2), depth, true, false)
+	ml := g.multiline()
+	l.kids = g.inlineSeq(g.r.Range(1, 3), depth, true, ml)
+	if ml {
+		g.f("inline:multiline-linktext")
+	}
 	g.destTitle(l)
 	return l
 }
@@ -312,7 +348,7 @@ func (g *gen) link(depth int) *inl {
 func (g *gen) image(depth int) *inl {
 	g.f("inline:image")
 	l := &inl{k: iImage}
-	l.kids = g.inlineSeq(g.r.Range(1, 2), depth, false, false)
+	l.kids = g.inlineSeq(g.r.Range(1, 3), depth, false, g.multiline())
 	// no images/links nested in the description in this profile, to keep alt text simple
 	for _, k := range l.kids {
 		if k.k == iLink || k.k == iRefLink || k.k == iImage || k.k == iAutolink || k.k == iRaw {
@@ -337,13 +373,34 @@ func (g *gen) refLink(depth int) *inl {
 // ---------------------------------------------------------------- blocks
 
 // fixLineStarts makes sure no line of a multi-line inline run starts with a raw
-// tag (comments, declarations etc. would start an HTML block and interrupt the paragraph).
+// tag or autolink (comments, declarations etc. would start an HTML block and
+// interrupt the paragraph). It returns whether the sequence ends right after a line break.
 func (g *gen) fixLineStarts(seq []*inl) {
-	for i := 1; i < len(seq); i++ {
-		if (seq[i-1].k == iSoft || seq[i-1].k == iHard) && (seq[i].k == iRaw || seq[i].k == iAutolink) {
-			*seq[i] = *g.word()
+	atStart := false
+	var walk func(seq []*inl)
+	walk = func(seq []*inl) {
+		for _, in := range seq {
+			switch in.k {
+			case iSoft, iHard:
+				atStart = true
+				continue
+			case iRaw, iAutolink:
+				if atStart {
+					*in = *g.word()
+				}
+			}
+			if len(in.kids) > 0 && (in.k == iEmph || in.k == iStrong || in.k == iLink || in.k == iImage || in.k == iRefLink) {
+				// the construct's own opening delimiter starts the line; its children follow it
+				atStart = false
+				walk(in.kids)
+			}
+			atStart = false
+			if in.k == iCode && strings.Contains(in.s, "\n") {
+				atStart = false
+			}
 		}
 	}
+	walk(seq)
 }
 
 func (g *gen) paragraph(lines bool) *blk {
@@ -397,7 +454,9 @@ func (g *gen) block1(depth int, inListItemFirst bool, afterPara bool) *blk {
 	case 5, 6:
 		g.f("block:atx")
 		b := &blk{k: kATX, level: g.r.Range(1, 6), closing: g.r.Intn(3) == 0}
+		g.oneLine = true
 		b.inl = g.inlineSeq(g.r.Range(1, 3), 1, false, false)
+		g.oneLine = false
 		return b
 	case 7:
 		g.f("block:setext")
@@ -497,7 +556,9 @@ func (g *gen) list(depth int) *blk {
 			}
 			switch tf {
 			case 0:
+				g.oneLine = true
 				item = append(item, &blk{k: kATX, level: g.r.Range(1, 6), inl: g.inlineSeq(1, 0, false, false)})
+				g.oneLine = false
 			case 1:
 				item = append(item, &blk{k: kFenced, fenceCh: "`~"[g.r.Intn(2)], fenceN: 3, lines: g.codeLines(false)})
 			default:
@@ -582,7 +643,7 @@ func (g *gen) inlineMD(seq []*inl, sb *strings.Builder) {
 			g.inlineMD(in.kids, sb)
 			sb.WriteString(d)
 		case iCode:
-			sb.WriteString("`" + in.s + "`")
+			sb.WriteString("`" + strings.ReplaceAll(in.s, "\n", "\n\x00") + "`")
 		case iLink, iImage:
 			if in.k == iImage {
 				sb.WriteByte('!')
@@ -596,14 +657,19 @@ func (g *gen) inlineMD(seq []*inl, sb *strings.Builder) {
 				sb.WriteString(in.dest)
 			}
 			if in.hasTitle {
-				sb.WriteByte(' ')
+				if in.nlTitle {
+					sb.WriteByte('\n')
+				} else {
+					sb.WriteByte(' ')
+				}
+				t := strings.ReplaceAll(in.title, "\n", "\n\x00")
 				switch in.tq {
 				case '"':
-					sb.WriteString("\"" + in.title + "\"")
+					sb.WriteString("\"" + t + "\"")
 				case '\'':
-					sb.WriteString("'" + in.title + "'")
+					sb.WriteString("'" + t + "'")
 				default:
-					sb.WriteString("(" + in.title + ")")
+					sb.WriteString("(" + t + ")")
 				}
 			}
 			sb.WriteByte(')')
@@ -621,7 +687,7 @@ func (g *gen) inlineMD(seq []*inl, sb *strings.Builder) {
 		case iAutolink:
 			sb.WriteString("<" + in.s + ">")
 		case iRaw:
-			sb.WriteString(in.s)
+			sb.WriteString(strings.ReplaceAll(in.s, "\n", "\n\x00"))
 		case iHard:
 			if in.spaces {
 				sb.WriteString("  \n")
@@ -658,7 +724,7 @@ func plainText(seq []*inl, sb *strings.Builder) {
 		case iEntity:
 			sb.WriteString(in.dec)
 		case iCode:
-			sb.WriteString(in.s)
+			sb.WriteString(strings.ReplaceAll(in.s, "\n", " "))
 		case iRefLink:
 			if in.refForm != 0 {
 				sb.WriteString(in.written)
@@ -722,7 +788,7 @@ func (g *gen) inlineHTML(seq []*inl, sb *strings.Builder) {
 			g.inlineHTML(in.kids, sb)
 			sb.WriteString("</strong>")
 		case iCode:
-			sb.WriteString("<code>" + escText(in.s) + "</code>")
+			sb.WriteString("<code>" + escText(strings.ReplaceAll(in.s, "\n", " ")) + "</code>")
 		case iLink, iRefLink:
 			sb.WriteString("<a href=\"" + escText(pctEncode(unescapeMD(in.dest))) + "\"")
 			if in.hasTitle {
